@@ -104,7 +104,7 @@ theorem sim_rmh {tick : Bool} {w : World} {j : JState} (hw : WheelInv w) (h : Si
   generalize hhd : lookupHandle w self tag = hd
   have hho : handleOf j self tag = (hd : Int) := by rw [handleOf_eq h, hhd]
   unfold removeByHandle
-  simp only []
+  simp only [tie_handleSlot]
   cases hr : removeFirst (fun c => c.handle == hd) (w.slots (slotOf hd)) 0 with
   | some r =>
     simp only []
@@ -121,9 +121,10 @@ theorem sim_rmh {tick : Bool} {w : World} {j : JState} (hw : WheelInv w) (h : Si
       have : e.handle = (hd : Int) := by simpa using r2
       rw [this]; simp [toPend, hxh]
     subst hee
-    have hval : timeLeft w (slotOf hd) r.1 = (toPend x.2).due - vnow w := by
-      rw [← e3]; exact timeLeft_pend hw hx
-    have hj : judgeStep j (.rmh (vnow w) self tag (timeLeft w (slotOf hd) r.1)) = { j with pend := rest } := by
+    have hval : Gen.C10.efunResult (timeLeft w (slotOf hd) r.1) = toCInt ((toPend x.2).due - vnow w) := by
+      rw [← e3]; exact efun_pend hw hx
+    have hj : judgeStep j (.rmh (vnow w) self tag (Gen.C10.efunResult (timeLeft w (slotOf hd) r.1))) =
+        { j with pend := rest } := by
       simp only [judgeStep, hho, hro, hval, answerOk, beq_self_eq_true, Bool.true_or, if_true]
     rw [hj]
     exact SimJ.remove_pair hw h e1 e2 hro
@@ -151,7 +152,7 @@ theorem sim_rmh {tick : Bool} {w : World} {j : JState} (hw : WheelInv w) (h : Si
         have hle : er.1.due ≤ vnow w := extra_due_le hw hx.2
         have hans : answerOk j er.1 (vnow w) (-1) = true := by
           simp only [answerOk, hdead, hle, decide_true, beq_self_eq_true, Bool.and_self, Bool.or_true]
-        by_cases hm1 : (-1 : Int) = er.1.due - vnow w
+        by_cases hm1 : (-1 : Int) = toCInt (er.1.due - vnow w)
         · have hj : judgeStep j (.rmh (vnow w) self tag (-1)) = { j with pend := er.2 } := by
             simp only [judgeStep, hho, hro, hans, if_true]
             rw [if_pos (by simpa using hm1)]
@@ -168,7 +169,7 @@ theorem sim_fh {tick : Bool} {w : World} {j : JState} (hw : WheelInv w) (h : Sim
   generalize hhd : lookupHandle w self tag = hd
   have hho : handleOf j self tag = (hd : Int) := by rw [handleOf_eq h, hhd]
   unfold findByHandle
-  simp only []
+  simp only [tie_handleSlot]
   rw [findFirst_eq]
   cases hf : List.find? (fun x => x.2.handle == hd) (cum 0 (w.slots (slotOf hd))) with
   | some x =>
@@ -188,8 +189,9 @@ theorem sim_fh {tick : Bool} {w : World} {j : JState} (hw : WheelInv w) (h : Sim
         refine hdesc_handle_inj h.pendSorted r1 hmem ?_
         rw [r2]; simp [toPend, hxh]
       subst hee
-      have hval : timeLeft w (slotOf hd) x.1 = (toPend x.2).due - vnow w := timeLeft_pend hw hx
-      have hj : judgeStep j (.fh (vnow w) self tag (timeLeft w (slotOf hd) x.1)) = j := by
+      have hval : Gen.C10.efunResult (timeLeft w (slotOf hd) x.1) = toCInt ((toPend x.2).due - vnow w) :=
+        efun_pend hw hx
+      have hj : judgeStep j (.fh (vnow w) self tag (Gen.C10.efunResult (timeLeft w (slotOf hd) x.1))) = j := by
         simp only [judgeStep, hho, hfo, hval, answerOk, beq_self_eq_true, Bool.true_or, if_true]
       rw [hj]; exact h
   | none =>
